@@ -1,0 +1,23 @@
+//go:build verif
+
+// Contracts for govc (contract-based deductive verification, see /verif/DESIGN.md).
+// Comment-only file: it adds no code and is compiled only with -tags verif.
+
+package unmarshal
+
+//@ func fastFillArray [C03,C05]
+//@   requires len >= 0
+//@   modifies nothing
+//@   ensures len(result) == len
+//@   ensures filled: forall i int :: 0 <= i && i < len ==> result[i] == val
+//@   loop 1:
+//@     invariant 1 <= _len && len(res) == len
+//@     invariant forall i int :: 0 <= i && i < _len && i < len ==> res[i] == val
+//@     modifies elems(res)
+//@     decreases len - _len
+//@   replay:
+//@     let n = len
+//@     go: r := fastFillArray[uint8]($n, 7)
+//@     go: if len(r) != $n { confirm("wrong length") }
+//@     go: for _, x := range r { if x != 7 { confirm("element not filled") } }
+//@   end
